@@ -1,4 +1,5 @@
 import Tahoe.StorageClient.Model
+import Tahoe.StorageClient.Upload
 /-! Helper lemmas for C32 (kept apart from the property theorems). -/
 namespace Tahoe.StorageClient
 
@@ -166,5 +167,118 @@ theorem contains_congr (p₁ p₂ : List Nat) (h : ∀ x, x ∈ p₁ ↔ x ∈ p
 theorem serverLe_congr (p₁ p₂ : List Nat) (h : ∀ x, x ∈ p₁ ↔ x ∈ p₂) : serverLe p₁ = serverLe p₂ := by
   funext a b
   simp only [serverLe, sortKey, contains_congr p₁ p₂ h]
+
+section History
+variable {Sig Msg : Type}
+
+/-- the entry of a broker state for server id `i` -/
+def findId (i : Nat) (st : List (Announced Sig Msg)) : Option (Announced Sig Msg) :=
+  st.find? (fun x => x.id == i)
+
+/-- one entry per server id -/
+def UniqIds (st : List (Announced Sig Msg)) : Prop := st.Pairwise (fun x y => x.id ≠ y.id)
+
+theorem mem_iff_findId (st : List (Announced Sig Msg)) (h : UniqIds st) (x : Announced Sig Msg) :
+    x ∈ st ↔ findId x.id st = some x := by
+  induction st with
+  | nil => simp [findId]
+  | cons y rest ih =>
+    have hp := List.pairwise_cons.mp h
+    unfold findId at ih ⊢
+    by_cases hy : y.id = x.id
+    · simp only [List.find?_cons, hy, beq_self_eq_true, Option.some.injEq, List.mem_cons]
+      constructor
+      · rintro (rfl | hx)
+        · rfl
+        · exact absurd hy (hp.1 x hx)
+      · intro e; exact Or.inl e.symm
+    · have hne : (y.id == x.id) = false := by simpa using hy
+      simp only [List.find?_cons, hne, List.mem_cons]
+      rw [← ih hp.2]
+      constructor
+      · rintro (rfl | hx)
+        · exact absurd rfl hy
+        · exact hx
+      · exact Or.inr
+
+theorem findId_filter_ne (st : List (Announced Sig Msg)) (i j : Nat) (h : i ≠ j) :
+    findId i (st.filter (fun x => x.id != j)) = findId i st := by
+  unfold findId
+  rw [List.find?_filter]
+  congr 1
+  funext x
+  by_cases hx : x.id = i
+  · simp [hx, h]
+  · simp [hx]
+
+theorem findId_filter_eq (st : List (Announced Sig Msg)) (j : Nat) :
+    findId j (st.filter (fun x => x.id != j)) = none := by
+  unfold findId
+  rw [List.find?_eq_none]
+  intro x hx
+  have := (List.mem_filter.mp hx).2
+  simpa using this
+
+theorem findId_append (st : List (Announced Sig Msg)) (s : Announced Sig Msg) (i : Nat) :
+    findId i (st ++ [s]) = (findId i st).or (if s.id = i then some s else none) := by
+  unfold findId
+  rw [List.find?_append]
+  by_cases h : s.id = i <;> simp [h]
+
+theorem findId_announce (st : List (Announced Sig Msg)) (a : Announcement Sig Msg) (i : Nat) :
+    findId i (announce st a) =
+      match accept a with
+      | some s => if s.id = i then some s else findId i st
+      | none => findId i st := by
+  unfold announce
+  cases hacc : accept a with
+  | none => rfl
+  | some s =>
+    simp only
+    rw [findId_append]
+    by_cases h : s.id = i
+    · subst h; simp [findId_filter_eq]
+    · have h' : i ≠ s.id := fun e => h e.symm
+      simp [h, findId_filter_ne st i s.id h']
+
+theorem uniq_announce (st : List (Announced Sig Msg)) (a : Announcement Sig Msg) (h : UniqIds st) :
+    UniqIds (announce st a) := by
+  unfold announce
+  cases hacc : accept a with
+  | none => exact h
+  | some s =>
+    simp only
+    unfold UniqIds
+    rw [List.pairwise_append]
+    refine ⟨h.sublist List.filter_sublist, by simp, ?_⟩
+    intro x hx y hy
+    have hy' : y = s := by simpa using hy
+    subst hy'
+    have := (List.mem_filter.mp hx).2
+    simpa using this
+
+theorem foldl_announce (hist : List (Announcement Sig Msg)) (st : List (Announced Sig Msg)) (h : UniqIds st) (i : Nat) :
+    UniqIds (hist.foldl announce st) ∧
+    findId i (hist.foldl announce st) = hist.foldl (fun acc a =>
+      match accept a with
+      | some s => if s.id = i then some s else acc
+      | none => acc) (findId i st) := by
+  induction hist generalizing st with
+  | nil => exact ⟨h, rfl⟩
+  | cons a rest ih =>
+    simp only [List.foldl_cons]
+    have := ih (announce st a) (uniq_announce st a h)
+    refine ⟨this.1, ?_⟩
+    rw [this.2, findId_announce]
+
+/-- the broker holds exactly the latest accepted announcement of every server id -/
+theorem mem_brokerAfter_iff (hist : List (Announcement Sig Msg)) (x : Announced Sig Msg) :
+    x ∈ brokerAfter hist ↔ latest x.id hist = some x := by
+  have h := foldl_announce hist ([] : List (Announced Sig Msg)) List.Pairwise.nil x.id
+  unfold brokerAfter latest
+  rw [mem_iff_findId _ h.1, h.2]
+  rfl
+
+end History
 
 end Tahoe.StorageClient
